@@ -10,7 +10,16 @@
    imgoracle <hex64>:<hex16> ...      -> ok            (label -> xxh3_64 hash, several lines allowed)
    imgcheck                           -> <check> ok | <check> FAIL <code> <x> <y> ... end
    imgkv                              -> <keyhex> <len> <fnv64> i | <keyhex> <len> <fnv64> o <valuehash> ... end
-   imgstats                           -> one line of k=v pairs *)
+   imgstats                           -> one line of k=v pairs
+   imgseps <n>                        -> t <keyhex> (up to n separators stored without prefix compression behind
+                                         compressed ones), b <keyhex> (first separators of up to n branches, evenly
+                                         spread), l <keyhex> (separators of up to n leaves) ... end   (lookup targets)
+   imglookup <keyhex> ...             -> prefix_unrecoverable <n> partial <m> (m = branches in which only some
+                                         separators are prefix-compressed), then per key
+                                         <keyhex> none <route> | <keyhex> <len> <fnv64> <route> ... end
+                                         (ReadPath.lookup, the mirror of NOMT's read path, on the opened image;
+                                          route = nobranch | nochild:<bbn> | noleaf:<bbn>:<i>:<ln> |
+                                                  miss:<bbn>:<i>:<ln> | hit:<bbn>:<i>:<ln>) *)
 
 open BinNums
 
@@ -105,6 +114,17 @@ let hex_of_key (k : bool list) : string =
     Buffer.add_char buf "0123456789abcdef".[!v]
   done;
   Buffer.contents buf
+
+(* 64 hex digits -> the 256 bits, most significant first *)
+let key_of_hex (s : string) : bool list =
+  let l = ref [] in
+  for i = String.length s - 1 downto 0 do
+    let v = hexval s.[i] in
+    for b = 0 to 3 do
+      l := ((v lsr b) land 1 = 1) :: !l
+    done
+  done;
+  !l
 
 (* ---------------------------------------------------------------------------------------- *)
 (* files *)
@@ -284,6 +304,53 @@ let handle (toks : string list) : string option =
                     | None -> base ^ " i"
                     | Some o -> base ^ " o " ^ hex_of_bytes o.Image.o_hash)
                   (Image.entries img)))
+      | Image.Err _ -> Some (lines [ "undecodable" ]))
+  | [ "imgseps"; n ] -> (
+      match image () with
+      | Image.Ok img ->
+          let n = max 2 (int_of_string n) in
+          let spread l =
+            let a = Stdlib.Array.of_list l in
+            let len = Stdlib.Array.length a in
+            if len <= n then l else Stdlib.List.init n (fun j -> a.(j * (len - 1) / (n - 1)))
+          in
+          let bs = Stdlib.List.map (fun b -> "b " ^ hex_of_key (Image.first_sep b)) (spread img.Image.i_branches) in
+          let ls = Stdlib.List.map (fun l -> "l " ^ hex_of_key l.Image.l_sep) (spread img.Image.i_leaves) in
+          (* separators stored whole behind the prefix-compressed ones (index >= prefix_compressed) *)
+          let rec drop k l = if k <= 0 then l else match l with [] -> [] | _ :: r -> drop (k - 1) r in
+          let tails =
+            Stdlib.List.concat_map (fun b -> drop (int_of_n b.Image.b_prefix_compressed) b.Image.b_seps) img.Image.i_branches
+          in
+          let ts = Stdlib.List.map (fun k -> "t " ^ hex_of_key k) (spread tails) in
+          Some (lines (ts @ bs @ ls))
+      | Image.Err _ -> Some (lines []))
+  | "imglookup" :: keys -> (
+      match image () with
+      | Image.Ok img ->
+          let d = dec_of_n in
+          let route (t : ReadPath.trace) : string =
+            match t with
+            | ReadPath.TNoBranch -> "nobranch"
+            | ReadPath.TNoChild b -> "nochild:" ^ d b
+            | ReadPath.TNoLeaf (b, i, pn) -> Printf.sprintf "noleaf:%s:%s:%s" (d b) (d i) (d pn)
+            | ReadPath.TLeafMiss (b, i, pn) -> Printf.sprintf "miss:%s:%s:%s" (d b) (d i) (d pn)
+            | ReadPath.THit (b, i, pn, _) -> Printf.sprintf "hit:%s:%s:%s" (d b) (d i) (d pn)
+          in
+          Some
+            (lines
+               ((Printf.sprintf "prefix_unrecoverable %s partial %d" (d (ReadPath.unrecoverable_prefixes img))
+                   (Stdlib.List.length
+                      (Stdlib.List.filter
+                         (fun b -> int_of_n b.Image.b_prefix_compressed < Stdlib.List.length b.Image.b_seps)
+                         img.Image.i_branches)))
+                :: Stdlib.List.map
+                     (fun hk ->
+                       let k = key_of_hex hk in
+                       let r = route (ReadPath.lookup_trace img k) in
+                       match ReadPath.lookup img k with
+                       | None -> Printf.sprintf "%s none %s" hk r
+                       | Some v -> Printf.sprintf "%s %d %016Lx %s" hk (Stdlib.List.length v) (fnv64 v) r)
+                     keys))
       | Image.Err _ -> Some (lines [ "undecodable" ]))
   | [ "imgstats" ] -> (
       match image () with
